@@ -647,6 +647,14 @@ func vC09Scenario(name string, seed uint64) string {
 		if !vClose(cc, 2*time.Second) {
 			return "second-close-hangs"
 		}
+		// what a closed connection reports, also when its context had ended before Close
+		if st := cc.GetState(); st != connectivity.Shutdown {
+			return "closed-connection-reports-" + st.String()
+		}
+		t0 := time.Now()
+		if err := cc.Invoke(context.Background(), "Echo", vAppMsg("late", nil, ""), &message.Response{}); err == nil || time.Since(t0) > 200*time.Millisecond {
+			return fmt.Sprintf("invoke-after-close/%v/%v", err, time.Since(t0))
+		}
 		return ""
 	case "state-while-close-waits-for-a-handler":
 		// C08: Close is waiting for a handler which is still serving a peer request: the connection refuses calls already,
@@ -797,7 +805,12 @@ func TestVerifC09Child(t *testing.T) {
 
 // C08: what a closed connection reports, with a state update in flight
 func TestVerifC08Closed(t *testing.T) {
-	vC09Run(t, []string{"state-update-in-flight", "state-while-close-waits-for-a-handler", "undecodable-frame-on-a-ready-connection"}, "closed/", 88)
+	vC09Run(t, []string{"state-update-in-flight", "state-while-close-waits-for-a-handler", "undecodable-frame-on-a-ready-connection", "close-after-dial-context-ended-and-connection-lost"}, "closed/", 88)
+}
+
+// C05: a frame which cannot be decoded does not stop the requests which follow it from being answered
+func TestVerifC05Frames(t *testing.T) {
+	vC09Run(t, []string{"undecodable-frame-on-a-ready-connection"}, "frames/", 55)
 }
 
 func TestVerifC09(t *testing.T) {
